@@ -641,6 +641,9 @@ pub fn install_panic_hook() {
         } else {
             String::from("<non-string panic>")
         };
+        if std::env::var_os("VH_PANIC_TRACE").is_some() {
+            eprintln!("panic at {}: {}", loc, msg);
+        }
         let _ = LAST_PANIC.try_with(|p| *p.borrow_mut() = Some((loc, msg)));
     }));
 }
